@@ -247,9 +247,20 @@ func pkgNameOfPath(p string) string {
 	return last
 }
 
+// ref is a reference, inside the template text, to a declaration the template itself writes: a
+// call of a generated method on the receiver of the enclosing method (`e.UnmarshalText(`) or of a
+// generated function (`Parse«$enumTypeName»(`).
+type ref struct {
+	kind  string // method | func
+	name  string
+	from  string // the declaration the reference sits in
+	guard []atom
+}
+
 type table struct {
 	entries []entry
 	uses    []use
+	refs    []ref
 }
 
 func readTemplate(file, name string, opts map[string]bool) table {
@@ -280,6 +291,12 @@ func readTemplate(file, name string, opts map[string]bool) table {
 	guardAt := func(off int) []atom { return w.segs[owner[off]].guard }
 
 	var tb table
+	type declPos struct {
+		off     int
+		recvVar string
+		name    string
+	}
+	var decls []declPos
 	// declarations
 	for _, m := range reDecl.FindAllStringSubmatchIndex(text, -1) {
 		sub := func(k int) string {
@@ -292,15 +309,18 @@ func readTemplate(file, name string, opts map[string]bool) table {
 		switch {
 		case sub(2) != "":
 			recv := strings.TrimSpace(sub(1))
+			rv := ""
 			if f := strings.Fields(recv); len(f) == 2 {
-				recv = f[1]
+				recv, rv = f[1], f[0]
 			} else if len(f) != 1 {
 				fail("receiver `" + sub(1) + "` not understood")
 			}
 			ptr := strings.HasPrefix(recv, "*")
 			tb.entries = append(tb.entries, entry{kind: "method", ptr: ptr, recv: strings.TrimPrefix(recv, "*"), name: sub(2), guard: g})
+			decls = append(decls, declPos{m[0], rv, sub(2)})
 		case sub(3) != "":
 			tb.entries = append(tb.entries, entry{kind: "func", name: sub(3), guard: g})
+			decls = append(decls, declPos{m[0], "", sub(3)})
 		case sub(4) != "":
 			tb.entries = append(tb.entries, entry{kind: "typ", name: sub(4), guard: g})
 		}
@@ -367,6 +387,75 @@ func readTemplate(file, name string, opts map[string]bool) table {
 				if !seen[key] {
 					seen[key] = true
 					tb.uses = append(tb.uses, u)
+				}
+			}
+			off += len(line)
+		}
+	}
+	// references to the template's own declarations (outside comments and string literals)
+	{
+		var mnames, fnames []string
+		seenName := map[string]bool{}
+		for _, e := range tb.entries {
+			if seenName[e.kind+e.name] {
+				continue
+			}
+			seenName[e.kind+e.name] = true
+			switch {
+			case e.kind == "method" && !strings.Contains(e.name, "«"):
+				mnames = append(mnames, regexp.QuoteMeta(e.name))
+			case e.kind == "func":
+				fnames = append(fnames, regexp.QuoteMeta(e.name))
+			}
+		}
+		enclosing := func(off int) declPos {
+			d := declPos{off: -1}
+			for _, x := range decls {
+				if x.off <= off {
+					d = x
+				}
+			}
+			return d
+		}
+		seen := map[string]bool{}
+		add := func(r ref) {
+			key := r.kind + r.name + r.from + guardLean(r.guard)
+			if !seen[key] {
+				seen[key] = true
+				tb.refs = append(tb.refs, r)
+			}
+		}
+		var reM, reF *regexp.Regexp
+		if len(mnames) > 0 {
+			reM = regexp.MustCompile(`(^|[^A-Za-z0-9_.])([A-Za-z_][A-Za-z0-9_]*)\.(` + strings.Join(mnames, "|") + `)\(`)
+		}
+		if len(fnames) > 0 {
+			reF = regexp.MustCompile(`(^|[^A-Za-z0-9_.])(` + strings.Join(fnames, "|") + `)\(`)
+		}
+		off := 0
+		for _, line := range strings.SplitAfter(text, "\n") {
+			code := line
+			if k := strings.Index(code, "//"); k >= 0 {
+				code = code[:k]
+			}
+			inString := func(pos int) bool {
+				return strings.Count(code[:pos], `"`)%2 == 1 || strings.Count(code[:pos], "`")%2 == 1
+			}
+			if reM != nil {
+				for _, m := range reM.FindAllStringSubmatchIndex(code, -1) {
+					d := enclosing(off + m[4])
+					if inString(m[4]) || d.recvVar == "" || code[m[4]:m[5]] != d.recvVar {
+						continue
+					}
+					add(ref{kind: "method", name: code[m[6]:m[7]], from: d.name, guard: guardAt(off + m[4])})
+				}
+			}
+			if reF != nil && !strings.HasPrefix(code, "func ") {
+				for _, m := range reF.FindAllStringSubmatchIndex(code, -1) {
+					if inString(m[4]) {
+						continue
+					}
+					add(ref{kind: "func", name: code[m[4]:m[5]], from: enclosing(off + m[4]).name, guard: guardAt(off + m[4])})
 				}
 			}
 			off += len(line)
@@ -554,6 +643,15 @@ func writeTable(b *strings.Builder, name string, tb table) {
 		fmt.Fprintf(b, "  ⟨%s, %s⟩%s\n", leanStr(u.pkg), guardLean(u.guard), sep)
 	}
 	b.WriteString("]\n")
+	fmt.Fprintf(b, "def %sRefs : List Ref := [\n", name)
+	for i, r := range tb.refs {
+		sep := ","
+		if i == len(tb.refs)-1 {
+			sep = ""
+		}
+		fmt.Fprintf(b, "  ⟨.%s, %s, %s, %s⟩%s\n", r.kind, leanStr(r.name), leanStr(r.from), guardLean(r.guard), sep)
+	}
+	b.WriteString("]\n")
 }
 
 func writeOpts(b *strings.Builder, name string, opts []option) {
@@ -601,7 +699,7 @@ func main() {
 
 	var b strings.Builder
 	b.WriteString("import Model.GenGuards\n")
-	fmt.Fprintf(&b, "/-! REGENERATED on every run by harness/cmd/extract-guards from the templates\n%s, %s, %s\n(text/template/parse) and from genum/definitions.go, gerror/error.go, gerror/factory.go, gerror/gerror.go,\nthe three gen/generate.go and GOROOT/src/sort/sort.go (go/ast). Do not edit.\nEntry = ⟨kind, pointer receiver, receiver (alias for imports), name (import path), guard⟩. -/\n",
+	fmt.Fprintf(&b, "/-! REGENERATED on every run by harness/cmd/extract-guards from the templates\n%s, %s, %s\n(text/template/parse) and from genum/definitions.go, gerror/error.go, gerror/factory.go, gerror/gerror.go,\nthe three gen/generate.go and GOROOT/src/sort/sort.go (go/ast). Do not edit.\nEntry = ⟨kind, pointer receiver, receiver (alias for imports), name (import path), guard⟩;\nRef = ⟨kind, referenced declaration, enclosing declaration, guard⟩. -/\n",
 		"genum/gen/enumTemplate.gotmpl", "gerror/gen/gerror.gotmpl", "gsort/gen/gsort.gotmpl")
 	b.WriteString("namespace Generated.Guards\nopen GenGuards\n\n")
 	writeOpts(&b, "genum", genumOpts)
@@ -627,8 +725,8 @@ func main() {
 			fail(err.Error())
 		}
 	}
-	fmt.Printf("guards: genum %d entries/%d uses, gerror %d/%d, gsort %d/%d\n",
-		len(genumT.entries), len(genumT.uses), len(gerrorT.entries), len(gerrorT.uses), len(gsortT.entries), len(gsortT.uses))
+	fmt.Printf("guards: genum %d entries/%d uses/%d refs, gerror %d/%d/%d, gsort %d/%d/%d\n",
+		len(genumT.entries), len(genumT.uses), len(genumT.refs), len(gerrorT.entries), len(gerrorT.uses), len(gerrorT.refs), len(gsortT.entries), len(gsortT.uses), len(gsortT.refs))
 }
 
 // repoFromWorkspace: the directory that the harness workspace uses for the genum module, minus
